@@ -128,9 +128,19 @@ func (c *ctx) callStmt(call *ast.CallExpr) []string {
 		case f.Sel.Name == "Done" && (recv == "ctx"):
 			return append(out, "SCall "+q("ctx.Done"))
 		}
+		// a mutex that is a FIELD of an object (s.randomMutex.Lock()): recognised by its name
+		if inner, ok := f.X.(*ast.SelectorExpr); ok && strings.HasSuffix(strings.ToLower(inner.Sel.Name), "mutex") {
+			switch f.Sel.Name {
+			case "Lock", "RLock":
+				return append(out, "SLock "+q(inner.Sel.Name))
+			case "Unlock", "RUnlock":
+				return append(out, "SUnlock "+q(inner.Sel.Name))
+			}
+		}
 		out = append(out, c.expr(f.X)...)
 		if f.Sel.Name == "Copy" || f.Sel.Name == "Solve" || f.Sel.Name == "Random" || f.Sel.Name == "Perm" ||
-			f.Sel.Name == "Intn" || f.Sel.Name == "Int63" || f.Sel.Name == "Float64" {
+			f.Sel.Name == "Intn" || f.Sel.Name == "Int63" || f.Sel.Name == "Float64" ||
+			f.Sel.Name == "WithDeadline" || f.Sel.Name == "WithTimeout" || f.Sel.Name == "WithCancel" {
 			out = append(out, "SCall "+q(f.Sel.Name))
 		}
 	}
@@ -760,6 +770,7 @@ func main() {
 		{"Skeleton_seqgen.v", "seqgen_rec", "solution_sequence_generator.go", "", "sequenceGenerator"},
 		{"Skeleton_seqgen.v", "best_move_multi", "solution_vehicle.go", "SolutionVehicle", "bestMovePlanMultipleStops"},
 		{"Skeleton_wrapper.v", "solver_parallel_wrapper", "solver_parallel.go", "parallelSolverWrapperImpl", "Solve"},
+		{"Skeleton_copysync.v", "solution_copy", "solution.go", "solutionImpl", "Copy"},
 	}
 	files := map[string]*strings.Builder{}
 	var names []string
@@ -794,6 +805,14 @@ func main() {
 	}
 	files["Skeleton_pool.v"] = wp
 	names = append(names, "Skeleton_pool.v")
+	wf := &strings.Builder{}
+	wf.WriteString("(* GENERATED by /verif/translator from /repo's working tree. Do not edit. *)\nFrom Coq Require Import List String.\nImport ListNotations.\nOpen Scope string_scope.\n\n")
+	if err := emitFactories(wf, fset, repo); err != nil {
+		fmt.Fprintln(os.Stderr, "translator:", err)
+		status = 1
+	}
+	files["Skeleton_factories.v"] = wf
+	names = append(names, "Skeleton_factories.v")
 	for _, n := range names {
 		if err := os.WriteFile(filepath.Join(outdir, n), []byte(files[n].String()), 0o644); err != nil {
 			fmt.Fprintln(os.Stderr, err)
